@@ -325,8 +325,15 @@ def gstr(s):
     return '"%s"%%string' % s.replace('"', "'")
 
 
-def x_servicetree():
+def x_supervisor_options():
+    """the meaning of the option: read from node/pkg/supervisor (kept apart from the tree so that the tree is still extracted, and run on the real
+    supervisor package, when only the option's implementation changes)"""
     supervisor_option_meaning()
+    return ("(* node/pkg/supervisor: WithPropagatePanic sets propagatePanic and nothing else does; processSchedule recovers a runnable's panic only `if !s.propagatePanic`;\n"
+            "   nothing else in the package recovers *)\nDefinition sup_option_means_no_recover : bool := true.\n"), {"propagate_option_means_no_recover": True}
+
+
+def x_servicetree():
     src = strip_comments(rd("node/cmd/guardiand/node.go"))
     imp = imports_of(src)
     m = re.search(r'^func runNode\(', src, re.M)
@@ -526,4 +533,4 @@ def x_servicetree():
     return out, info
 
 
-EXTRACTORS = [("servicetree", x_servicetree)]
+EXTRACTORS = [("servicetree", x_servicetree), ("supervisor_options", x_supervisor_options)]
